@@ -219,7 +219,7 @@ func TestVerifC09(t *testing.T) {
 	defer runtime.GOMAXPROCS(prev)
 	raceBuild := ksync.VerifRaceEnabled
 
-	run.SetRule("case = one concurrent history: real pmm.Init on a generated map (1-3 available regions of 2-130 frames, word-boundary sizes included; with 2-3 regions one case in three reports them in a permuted, not ascending, order), then 2-16 callers in parallel (GOMAXPROCS=16) each running a seed-fixed list of AllocFrame / FreeFrame(own frame) / FreeFrame(unmanaged frame) calls; non-trivial = history in which at least one call returned out-of-memory and at least one frame was handed to two different callers over time (reuse after free); distinct = fingerprint of the per-frame owner sequences actually observed")
+	run.SetRule("case = one concurrent history: real pmm.Init on a generated map (1-3 available regions of 2-130 frames, word-boundary sizes included; with 2-3 regions one case in three reports them in a permuted, not ascending, order), then 2-16 callers in parallel (GOMAXPROCS=16) each running a seed-fixed list of AllocFrame / FreeFrame(own frame) / FreeFrame(unmanaged frame) calls; every case with >= 8 usable frames closes with three callers allocating/holding/freeing one frame each while a fourth keeps freeing a frame that stays free (each of its calls must be refused); non-trivial = history in which at least one call returned out-of-memory and at least one frame was handed to two different callers over time (reuse after free); distinct = fingerprint of the per-frame owner sequences actually observed")
 	run.Assume("yieldFn = runtime.Gosched; schedules are whatever 16 cores produce; callers never free a frame they do not hold (undefined by the statement)")
 
 	nh := run.N(150, 8000)
@@ -531,6 +531,7 @@ func TestVerifC09(t *testing.T) {
 		}
 		// full drain: exactly the usable frames, each once
 		seen := map[uint64]bool{}
+		var drainOrder []uint64
 		for {
 			f, e := alloc.AllocFrame()
 			if e != nil {
@@ -541,12 +542,77 @@ func TestVerifC09(t *testing.T) {
 				break
 			}
 			seen[uint64(f)] = true
+			drainOrder = append(drainOrder, uint64(f))
 			if len(seen) > len(managed) {
 				break
 			}
 		}
 		if len(seen) != len(managed) {
 			c.Violationf("frame-lost", "after the concurrent phase only %d of %d usable frames can be allocated: a freed frame did not become allocatable again", len(seen), len(managed))
+		}
+
+		// Refused frees among the callers. Three callers allocate one frame each, hold it briefly and free it,
+		// so at most three frames are held at any time and the allocator (first free frame of the first pool
+		// with room) never reaches the frame the drain above returned last. A fourth caller keeps freeing that
+		// frame, which is free all the time: every such call has to be refused and must not disturb the others.
+		if len(drainOrder) >= 8 && len(seen) == len(managed) && !c.Failed() {
+			for _, f := range drainOrder {
+				alloc.FreeFrame(mm.Frame(f))
+			}
+			never := drainOrder[len(drainOrder)-1]
+			var owner gosync.Map
+			var dup, badFree, accepted, refused, done int64
+			var wg gosync.WaitGroup
+			for w := 1; w <= 3; w++ {
+				wg.Add(1)
+				go func(id int) {
+					defer wg.Done()
+					defer atomic.AddInt64(&done, 1)
+					for it := 0; it < 3000; it++ {
+						f, e := alloc.AllocFrame()
+						if e != nil {
+							continue
+						}
+						if _, loaded := owner.LoadOrStore(uint64(f), id); loaded || uint64(f) == never {
+							atomic.AddInt64(&dup, 1)
+							continue
+						}
+						for spin := 0; spin < 40; spin++ {
+							if v, _ := owner.Load(uint64(f)); v != id {
+								atomic.AddInt64(&dup, 1)
+								break
+							}
+						}
+						owner.Delete(uint64(f))
+						if e := alloc.FreeFrame(f); e != nil {
+							atomic.AddInt64(&badFree, 1)
+						}
+					}
+				}(w)
+			}
+			wg.Add(1)
+			go func() {
+				defer wg.Done()
+				for atomic.LoadInt64(&done) < 3 {
+					if e := alloc.FreeFrame(mm.Frame(never)); e != errBitmapAllocDoubleFree {
+						atomic.AddInt64(&accepted, 1)
+					}
+					atomic.AddInt64(&refused, 1)
+				}
+			}()
+			wg.Wait()
+			run.Count("refused_frees_issued_among_concurrent_callers", refused)
+			switch {
+			case dup > 0:
+				c.Violationf("frame-held-twice", "while a fourth caller kept issuing frees of the free frame %#x (each refused), a frame was handed to a caller while another still held it (%d times in 9000 allocations by three callers)", never, dup)
+			case badFree > 0:
+				c.Violationf("free-of-held-frame-rejected", "while a fourth caller kept issuing refused frees, %d frees of frames held by their caller were rejected", badFree)
+			case accepted > 0:
+				c.Violationf("free-of-free-frame-accepted", "%d of %d frees of frame %#x, which was free all the time, were not refused as double frees", accepted, refused, never)
+			}
+			if s := c09Snapshot(); !s.equal(init0) && !c.Failed() {
+				c.Violationf("totals-drifted", "after the callers of the refused-free phase stopped: reserved=%d (initial %d), per-pool free=%v (initial %v) or bitmap words differ", s.reserved, init0.reserved, s.free, init0.free)
+			}
 		}
 
 		// emit history
